@@ -1,0 +1,11 @@
+//go:build verif
+
+package publish
+
+import "net/url"
+
+// VerifSetBaseURL points the publisher at another API endpoint. It is only
+// compiled into verification builds (build tag "verif").
+func (cf *CloudflarePublisher) VerifSetBaseURL(u url.URL) {
+	cf.baseURL = u
+}
